@@ -2,6 +2,7 @@ package driver
 
 import (
 	"fmt"
+	"math"
 	"sort"
 	"strings"
 	"time"
@@ -295,6 +296,12 @@ func drawSel(w *simrt.Tape, shape []int) [][]int {
 		start := w.Choose(ext + 1)
 		stop := start + w.Choose(ext+3)
 		step := 1 + w.Choose(3)
+		switch w.Choose(12) {
+		case 10: // "to the end" sentinels
+			stop = math.MaxInt64
+		case 11:
+			stop = math.MaxInt32
+		}
 		sel[d] = []int{start, stop, step}
 		any = true
 	}
@@ -410,6 +417,7 @@ func h5Sequential[T num, A arr[T, A]](k kit[T, A], rc *RunCtx, o *Outcome, ctl *
 		return v
 	}
 	var log []string
+	var selPool [][][]int
 	o.Sample = map[string]interface{}{"mode": map[bool]string{false: "sequential", true: "faulted"}[faults], "element_type": k.name, "operations": nOps}
 	// a string dataset for LoadText
 	strs := []string{"Sum", "GR4J", "x"}
@@ -632,10 +640,27 @@ func h5Sequential[T num, A arr[T, A]](k kit[T, A], rc *RunCtx, o *Outcome, ctl *
 				var sel [][]int
 				if md != nil && md.str == nil && kind > 6 {
 					sel = drawSel(w, md.shape)
+					// callers keep selection objects and use them again (ow-sim uses one generation
+					// slice for parameters, states and inputs): re-use an earlier selection of the
+					// same rank as the very same object
+					if len(selPool) > 0 && w.Bool(35) {
+						if cand := selPool[w.Choose(len(selPool))]; len(cand) == len(md.shape) {
+							sel = cand
+							o.probe("selection_object_reused")
+						}
+					}
+					if sel != nil && len(selPool) < 6 {
+						selPool = append(selPool, sel)
+					}
 				}
+				selBefore := fmt.Sprint(sel)
 				curOp = fmt.Sprintf("Load(%s:%s,%v)", fn, path, sel)
 				log = append(log, curOp)
 				got, err := k.ref(fn, path, sel).Load()
+				if after := fmt.Sprint(sel); after != selBefore {
+					o.fail("selection-argument-modified", "load/selection-modified", "%s changed the caller's selection to %s (the next Load with the same selection addresses another region); history %v", curOp, after, log)
+					return
+				}
 				if hit() {
 					o.probe("operation_hit_by_fault")
 					if err == nil {
